@@ -9,9 +9,9 @@ if TYPE_CHECKING:
 
 
 def default_resolver(
-    root: Any,
-    context: Any,
-    info: "ResolveInfo",
+    __root: Any,
+    __context: Any,
+    __info: "ResolveInfo",
     *,
     __isinstance: Any = isinstance,
     __getattr: Any = getattr,
@@ -39,22 +39,26 @@ def default_resolver(
     As this is can be called a lot during execution, the ``__*`` type arguments
     are there as an optimisation.
 
+    The three leading parameters are passed positionally by the executor and
+    carry reserved (``__`` prefixed) names so that field arguments called
+    ``root``, ``context`` or ``info`` simply end up in ``**args``.
+
     Args:
-        root: Value of the resolved parent node.
-        context: User provided context value.
-        info (py_gql.execution.ResolveInfo): Resolution context.
+        __root: Value of the resolved parent node.
+        __context: User provided context value.
+        __info (py_gql.execution.ResolveInfo): Resolution context.
         **args: Coerced field arguments.
 
     Returns:
         Resolved value.
 
     """
-    if __isinstance(root, __mapping_cls):
-        return root.get(info.field_definition.python_name, None)
+    if __isinstance(__root, __mapping_cls):
+        return __root.get(__info.field_definition.python_name, None)
 
-    field_value = __getattr(root, info.field_definition.python_name, None)
+    field_value = __getattr(__root, __info.field_definition.python_name, None)
 
     if __callable(field_value):
-        return field_value(context, info, **args)
+        return field_value(__context, __info, **args)
     else:
         return field_value
